@@ -134,6 +134,7 @@ class FunctionAnalysis:
             env[self.vararg] = frozenset({("param", -1, self.vararg)})  # a tuple; its elements are the caller's
         if self.kwarg:
             env[self.kwarg] = frozenset({("fresh", "container")})
+        self._prescan_contents()
         w = Walker(self.f.node, self.eval, self.on_stmt, bind=self.bind, init_env=env)
         w.unpack = self.unpack
         w.elem_of = self.elem_of
@@ -142,6 +143,115 @@ class FunctionAnalysis:
         for st, vals, _ in w.returns:
             self.returns |= set(vals)
         return self
+
+    # ------------------------------------------------------------------ contents of locally built containers
+    def _prescan_contents(self):
+        """Flow-insensitive summary, per local name, of the expressions ever stored *directly* into the container it names
+        (`N[k] = v`, `N.append(v)`, `N.setdefault(k, v)`, displays, copy constructors ...).  An element read from a fresh
+        container bound to N then has the origins of those expressions (plus a fresh object for a defaultdict factory)
+        instead of 'unknown'."""
+        self.stores: Dict[str, List[tuple]] = {}
+        self.bindings_of: Dict[str, int] = {}
+        for n in walk_no_nested(self.f.node):
+            if isinstance(n, ast.Assign) and len(n.targets) == 1:
+                t, v = n.targets[0], n.value
+                if isinstance(t, ast.Name):
+                    self.bindings_of[t.id] = self.bindings_of.get(t.id, 0) + 1
+                    self._init_contents(t.id, v)
+                elif isinstance(t, ast.Subscript) and isinstance(t.value, ast.Name):
+                    self.stores.setdefault(t.value.id, []).append(("val", v))
+            elif isinstance(n, ast.AugAssign) and isinstance(n.target, ast.Name):
+                self.stores.setdefault(n.target.id, []).append(("elems", n.value))
+            elif isinstance(n, (ast.For, ast.With, ast.NamedExpr)):
+                for x in ast.walk(n.target if isinstance(n, (ast.For, ast.NamedExpr)) else ast.Tuple(elts=[i.optional_vars for i in n.items if i.optional_vars is not None], ctx=ast.Store())):
+                    if isinstance(x, ast.Name):
+                        self.bindings_of[x.id] = self.bindings_of.get(x.id, 0) + 2  # not a simple single binding
+            elif isinstance(n, ast.Call) and isinstance(n.func, ast.Attribute) and isinstance(n.func.value, ast.Name):
+                name, m = n.func.value.id, n.func.attr
+                if m in ("append", "add", "appendleft", "push") and n.args:
+                    self.stores.setdefault(name, []).append(("val", n.args[0]))
+                elif m == "insert" and len(n.args) == 2:
+                    self.stores.setdefault(name, []).append(("val", n.args[1]))
+                elif m == "setdefault" and len(n.args) == 2:
+                    self.stores.setdefault(name, []).append(("val", n.args[1]))
+                elif m in ("update", "extend") and n.args:
+                    self.stores.setdefault(name, []).append(("elems", n.args[0]))
+                    for k in n.keywords:
+                        self.stores[name].append(("val", k.value))
+                elif m in ("update",) and n.keywords:
+                    for k in n.keywords:
+                        self.stores.setdefault(name, []).append(("val", k.value))
+
+    def _init_contents(self, name: str, v: ast.AST):
+        st = self.stores.setdefault(name, [])
+        if isinstance(v, (ast.List, ast.Set, ast.Tuple)):
+            st += [("val", e) for e in v.elts]
+        elif isinstance(v, ast.Dict):
+            st += [("val", e) for e in v.values]
+        elif isinstance(v, (ast.ListComp, ast.SetComp)):
+            st.append(("comp", v, v.elt))
+        elif isinstance(v, ast.DictComp):
+            st.append(("comp", v, v.value))
+        elif isinstance(v, ast.Call):
+            callee = self.resolve(v.func)
+            if callee in ("collections.defaultdict",):
+                if v.args:
+                    st.append(("factory", v.args[0]))
+                for a in v.args[1:]:
+                    st.append(("elems", a))
+            elif callee in FRESH_CONTAINER_CTORS:
+                for a in v.args:
+                    st.append(("elems", a))
+                for k in v.keywords:
+                    st.append(("val", k.value))
+            else:
+                st.append(("opaque", v))
+        else:
+            st.append(("opaque", v))
+
+    def contents_of(self, name: str, env, depth=0) -> Optional[FrozenSet]:
+        """origins of the elements of the fresh container bound to local `name`, or None when not summarised"""
+        if depth > 2 or self.bindings_of.get(name, 0) != 1 or name not in self.stores:
+            return None
+        busy = self.__dict__.setdefault("_contents_busy", set())
+        if name in busy or len(busy) > 3:
+            return None
+        busy.add(name)
+        try:
+            return self._contents_of(name, env)
+        finally:
+            busy.discard(name)
+
+    def _contents_of(self, name: str, env) -> Optional[FrozenSet]:
+        out = set()
+        for item in self.stores[name]:
+            kind = item[0]
+            if kind == "val":
+                out |= set(self.eval(item[1], env))
+            elif kind == "elems":
+                out |= set(self.elem_of(self.eval(item[1], env)))
+            elif kind == "factory":
+                f = item[1]
+                if isinstance(f, ast.Name) and f.id in ("list", "set", "dict", "OrderedDict", "Counter", "deque", "defaultdict"):
+                    out.add(("fresh", "container"))
+                elif isinstance(f, ast.Lambda) and isinstance(f.body, (ast.List, ast.Dict, ast.Set, ast.ListComp, ast.Call)):
+                    out |= set(self.eval(f.body, env))
+                elif isinstance(f, ast.Name) and f.id in ("int", "float", "str", "bool", "tuple", "frozenset"):
+                    out.add(("imm",))
+                else:
+                    return None
+            elif kind == "comp":
+                comp, elt = item[1], item[2]
+                env2 = dict(env)
+                for g in comp.generators:
+                    vals = self.elem_of(self.eval(g.iter, env2))
+                    for x in ast.walk(g.target):
+                        if isinstance(x, ast.Name):
+                            env2[x.id] = vals if isinstance(g.target, ast.Name) else frozenset({("unknown", "comprehension target")})
+                out |= set(self.eval(elt, env2))
+            else:
+                return None
+        return frozenset(out) if out else frozenset({("imm",)})
 
     # ------------------------------------------------------------------ light typing
     def classes_of(self, expr) -> tuple:
@@ -256,7 +366,11 @@ class FunctionAnalysis:
                 if b[0] == "fresh" and b[1] == "array":
                     out.add(("view", b))
                 elif b[0] == "fresh":
-                    out.add(("unknown", "element of a fresh container"))
+                    known = self.contents_of(e.value.id, env) if isinstance(e.value, ast.Name) and not getattr(self, "_in_contents", False) else None
+                    if known is not None and not any(k[0] == "unknown" for k in known):
+                        out |= set(known)
+                    else:
+                        out.add(("unknown", "element of a fresh container"))
                 elif b[0] == "imm":
                     out.add(("unknown", "element of an immutable sequence"))
                 elif b[0] == "tuple":
@@ -403,7 +517,14 @@ class FunctionAnalysis:
                 out = set()
                 for v in recv:
                     if v[0] == "fresh":
-                        out.add(("unknown", "element of a fresh container"))
+                        recv_e = c.func.value
+                        known = self.contents_of(recv_e.id, env) if isinstance(recv_e, ast.Name) else None
+                        if known is not None and not any(k[0] == "unknown" for k in known):
+                            out |= set(known)
+                            if m == "setdefault" and len(argvals) == 2:
+                                out |= set(argvals[1])
+                        else:
+                            out.add(("unknown", "element of a fresh container"))
                     elif v[0] in ("imm", "tuple"):
                         out.add(("unknown", "element"))
                     else:
